@@ -240,3 +240,32 @@ def slot_sweep():
                 d = _re.sub(r"(?<!\{)\{([A-Z])\}", lambda m: vals[m.group(1)], tpl).replace("{{", "{").replace("}}", "}")
                 out.append(d)
     return out
+
+
+SOUP = ["![", "[", "](d)", "](d*)", "](d_)", "](<d*>)", "](d \"t*\")", "](d '_t')", "][foo]", "]", "*", "**", "_", "__", "***", "`", "``", "<b>", "</b>", "<http://x.y/*>",
+        "<a href=\"*\">", "*[", "]*", "_[", "]_", "![c](d*)", "[c](d_)", "`*`", "~~", "==", "^", "\\*", "\\["]
+
+
+def crossing(rng):
+    """an emphasis-like opener inside a link text / image description whose only partner lies inside a higher-precedence construct
+    (destination, title, label, code span, autolink, HTML attribute) of a nested link or image"""
+    w = rng.sample(WORDS, 6)
+    delim = rng.choice(["*", "**", "_", "__", "~~", "==", "***"])
+    inner = rng.choice(["![%s](d%s)", "[%s](d%s)", "`%s%s`", "<http://x.y/%s%s>", "<b title=\"%s%s\">", "![%s][r%s]", "[%s][r%s]", "[%s](d \"t%s\")", "![%s](<d %s>)"]) % (w[0], delim)
+    body = "%s %s%s %s %s" % (w[1], delim, w[2], inner, w[3])
+    outer = rng.choice(["![%s](f)", "[%s](/f)", "![%s][foo]", "[%s][foo]", "*%s*", "%s", "![%s](f \"t\")", "> ![%s](f)", "# [%s](f)"]) % body
+    return "%s %s %s\n\n[foo]: /u 't'\n\n[r%s]: /r\n" % (w[4], outer, w[5], delim)
+
+
+def bracket_soup(rng):
+    """one paragraph of brackets, images, destinations and emphasis delimiters that cross each other (a delimiter's partner inside a destination,
+    a title, a code span, an autolink or a nested image), with distinct words in between; reference `[foo]` is defined"""
+    if rng.random() < 0.4:
+        return crossing(rng)
+    words = rng.sample(WORDS, min(len(WORDS), 12))
+    parts = []
+    for i in range(rng.randint(3, 12)):
+        parts.append(rng.choice(SOUP))
+        if rng.random() < 0.75:
+            parts.append(rng.choice(["", " "]) + words[i % len(words)] + rng.choice(["", " "]))
+    return "".join(parts) + "\n\n[foo]: /u 't'\n"
